@@ -32,27 +32,37 @@ RULE = ("schedule words over {T, F (thread move, run_condition true/false), Run,
         "non-trivial = the word contains Reset, Reboot or Teardown; distinct by the word")
 TRUSTED_BASE = ["Coq 8.16.1 kernel (coqc); no axioms (Print Assumptions: closed under the global context)",
                 "extraction (ExtrOcamlBasic only), ocaml/drv_C09.ml, ocaml/caseio.ml",
-                "the atomicity granularity of the model: one thread move = one shared access of filtering_recursion(); run()/reboot()/teardown() "
-                "are atomic (they hold mtx_run_ for their whole body); reset()/is_running()/step_number() are one atomic access (std::atomic members)",
+                "the atomicity granularity of the model: one thread move = one shared access of filtering_recursion(); run()/teardown() = one store + notify "
+                "under mtx_run_; reboot() = two stores under mtx_run_ (two moves, the thread may run in between except for taking the mutex); "
+                "reset()/is_running()/step_number() = one atomic access (std::atomic members, sequentially consistent)",
                 "std::thread / std::mutex / std::condition_variable semantics as modelled: a thread blocked in wait moves only after a notify "
                 "(or a spurious wake-up, which the model also allows) and re-evaluates the predicate under the mutex; join returns once the thread function returned",
-                "cpp/h_C09.cpp scheduler (semaphore hand-over at the BFL_VERIF schedule points 1-6 and the probe's virtual callbacks 7-9)",
+                "cpp/h_C09.cpp scheduler (hand-over at the BFL_VERIF schedule points 1-6 and the probe's virtual callbacks 7-9) and its free-running stress mode",
+                "the textual shape check of run()/reboot()/teardown()/reset() in props/C09.py (which stores, their order, lock, notify): the inside of these calls "
+                "cannot be scheduled by the harness",
                 "correspondence is sampled: agreement is established on the generated schedules only; the harness can interleave commands only at the "
                 "nine schedule points (the model's finer interleavings between the individual flag reads are covered by the theorems, not by the runs)"]
 ASSUMPTIONS = ["lk.unlock() of an owned mutex does not throw (the catch branch that sets teardown_ is not modelled)",
                "initialization_step()/filtering_step()/run_condition() of the concrete filter return (a step that never returns is outside the property)",
-               "the value returned by initialization_step() is ignored by filtering_recursion(), as in the code"]
-LEVEL_TEXT = ("Proof: small-step model of FilteringAlgorithm (22 thread program points, 7 controller actions, run_condition as an oracle, spurious wake-ups "
-              "allowed); the lifecycle invariants (no step before run, epoch grammar with step numbers from 0, reset/reboot honoured after at most one step, "
-              "at most one step after teardown, quiescence after exit) are proved for every reachable configuration over all interleavings and command "
-              "sequences, bounded exit (<= 15 own moves after teardown, <= 10 once run_condition stays false, at most one of them a step, thread never "
-              "disabled) likewise; the executable step function generates exactly the reachable set and is the one extracted and run against the library.")
+               "the value returned by initialization_step() is ignored by filtering_recursion(), as in the code",
+               "boot() is called once and before the commands (the initial configuration is the one right after boot())"]
+LEVEL_TEXT = ("Proof: small-step model of FilteringAlgorithm (22 thread program points, 7 controller actions with reboot() split at its two stores, "
+              "run_condition as an oracle, spurious wake-ups allowed), given both as an executable step function and as a rule-per-action relation proved "
+              "equivalent. For every reachable configuration over all interleavings and command sequences: no step before run, epoch grammar with step "
+              "numbers from 0, reset/reboot followed by at most one step before the next initialisation/exit, at most one initialisation-or-step after reboot "
+              "until run, at most one after teardown, the thread ends only through teardown or a false run_condition, quiescence after its final store; "
+              "bounded exit (<= 15 own moves after teardown, <= 10 once run_condition stays false, at most one of them a step, thread never disabled); "
+              "progress (a pending reset/reboot leads to a new initialisation, resp. to waiting for run, within 17 own moves). The executable step function is "
+              "the one extracted and run against the library; the extracted trace monitors are also evaluated on the library's own traces.")
 LEVEL_NOTE = ("What the model cannot exhibit: pre-emption inside libstdc++ (inside mutex/condition_variable/thread operations) and inside the atomic "
               "accesses; real time - 'wait returns in bounded time' is proved as 'the thread reaches its end within a bounded number of its own moves and "
               "is never disabled', the check enforces a 2 s time-out on the real wait(); a woken thread cannot be held back by the harness, so the "
-              "interleaving 'notify, further commands, then wake-up' is covered by the theorems only; EExit is the thread's final store run_ = false "
-              "(a run() between that store and the return of the thread function counts as 'after the thread had ended'). The pre-fix teardown "
-              "(plain store, no notify) is kept in coq/C09_Regress.v with the proof that it hangs (C09_teardown_hang_refuted).")
+              "interleaving 'notify, further commands, then wake-up' and the interleavings inside reboot() are covered by the theorems only (the source "
+              "shape check guards the transcription of those calls); EExit is the thread's final store run_ = false (a run() between that store and the "
+              "return of the thread function counts as 'after the thread had ended'). An initialisation that the thread was already committed to (it had "
+              "passed the wait) can still happen after reboot()/teardown(): the theorems bound it (at most one initialisation-or-step), they do not forbid it. "
+              "Clause (b) of bounded exit needs the thread to be past the wait: a thread still blocked waiting for run ends only through teardown. "
+              "The pre-fix teardown (plain store, no notify) is kept in coq/C09_Regress.v with the proof that it hangs (C09_teardown_hang_refuted).")
 
 # prefixes: P2 = a reset requested inside step 1, thread back at the loop top (second epoch about to start, counter = 2);
 #           P3 = inner loop left on a false run_condition, outer condition true: new epoch without reset
